@@ -3,6 +3,7 @@ use crate::json::J;
 use crate::obj;
 use vstd::sim::Rng;
 
+pub mod coroutine;
 pub mod queues;
 
 #[derive(Clone, Copy, Debug, PartialEq, Eq)]
@@ -30,6 +31,7 @@ pub struct Scenario {
 pub fn all() -> Vec<&'static Scenario> {
     let mut v: Vec<&'static Scenario> = Vec::new();
     v.extend(queues::SCENARIOS.iter());
+    v.extend(coroutine::SCENARIOS.iter());
     v
 }
 
